@@ -210,23 +210,44 @@ func vrtGenerator() *generator.Generator {
 	return g
 }
 
-// vrtRun executes a harness and prints the replay report as JSON.
+// vrtRun executes a harness and prints the replay report as JSON. With VRT_REPEAT=n the harness is
+// executed up to n times on the same vector (Go randomises the map iteration order on every range
+// statement, so repetition explores schedules) and the first failing run is reported.
 func vrtRun(f func()) {
-	rep := map[string]interface{}{}
-	func() {
-		defer func() {
-			if r := recover(); r != nil {
-				if _, ok := r.(vrtAssumeFailed); ok {
-					rep["assume_failed"] = true
-					return
+	repeat, _ := strconv.Atoi(os.Getenv("VRT_REPEAT"))
+	if repeat < 1 {
+		repeat = 1
+	}
+	var rep map[string]interface{}
+	for run := 1; run <= repeat; run++ {
+		vrtPos, vrtDesync, vrtFailed, vrtKnown, vrtReached, vrtEvents = 0, nil, nil, nil, nil, nil
+		rep = map[string]interface{}{"runs": run}
+		func() {
+			defer func() {
+				if r := recover(); r != nil {
+					if _, ok := r.(vrtAssumeFailed); ok {
+						rep["assume_failed"] = true
+						return
+					}
+					rep["panic"] = fmt.Sprint(r)
 				}
-				rep["panic"] = fmt.Sprint(r)
-			}
+			}()
+			f()
 		}()
-		f()
-	}()
-	rep["failed"], rep["known"], rep["reached"], rep["events"] = vrtFailed, vrtKnown, vrtReached, vrtEvents
-	rep["draws"], rep["vector_len"], rep["desync"] = vrtPos, len(vrtVec), vrtDesync
+		rep["failed"], rep["known"], rep["reached"], rep["events"] = vrtFailed, vrtKnown, vrtReached, vrtEvents
+		rep["draws"], rep["vector_len"], rep["desync"] = vrtPos, len(vrtVec), vrtDesync
+		if want := os.Getenv("VRT_TARGET"); want != "" {
+			hit := false
+			for _, l := range vrtFailed {
+				hit = hit || l == want
+			}
+			if hit {
+				break
+			}
+		} else if len(vrtFailed) > 0 || rep["panic"] != nil {
+			break
+		}
+	}
 	b, _ := json.Marshal(rep)
 	fmt.Println("VRT-REPORT " + string(b))
 }
@@ -254,8 +275,9 @@ func vrtIdent(s string) bool {
 }
 
 // vrtConfigFile natively creates the configuration file the environment holds: a missing file,
-// an unparsable one, or a YAML file listing one type (none when typ is empty).
-func vrtConfigFile(readErr, yamlErr bool, typ string) string {
+// an unparsable one, or a YAML file listing one type (when typ is empty: an explicit empty list if
+// emptyList, else no `types` key at all).
+func vrtConfigFile(readErr, yamlErr, emptyList bool, typ string) string {
 	dir, err := os.MkdirTemp("", "vrtcfg")
 	if err != nil {
 		panic(err)
@@ -265,6 +287,9 @@ func vrtConfigFile(readErr, yamlErr bool, typ string) string {
 		return p
 	}
 	content := "sort: false\n"
+	if emptyList {
+		content = "types: []\n"
+	}
 	if typ != "" {
 		content = "types:\n  - \"" + typ + "\"\n"
 	}
